@@ -595,3 +595,21 @@ Proof.
   exists (fst complex_result), (snd complex_result).
   revert E. vm_compute. intros E. first [ discriminate E | split; reflexivity ].
 Qed.
+
+(* A second refutation that follows the sources: cg_sol_ptset_write accepts FaceCenter in a 3-D base; as long as cgi_read_sol
+   computes the zone-wide data size before it looks for the point set, the file the three calls produce is not read back. *)
+Definition face_ptset_witness : list call :=
+  [mkCall F_base [] (s "B") [3; 3] [] [];
+   mkCall F_zone [(KBase, 1)] (s "Z") [3; 8; 1; 0] [] [];
+   mkCall F_sol_ptset [(KBase, 1); (KZone, 1)] (s "S") [4; 2; 1; 1] [] []].
+Definition face_ptset_result : ent * list Z :=
+  match run root0 face_ptset_witness with Some r => r | None => (root0, []) end.
+Lemma ptset_location_refuted :
+  if datasize_first (s "cgi_read_sol") then
+    exists root idxs, run root0 face_ptset_witness = Some (root, idxs) /\ read_file (enc root) = None
+  else True.
+Proof.
+  destruct (datasize_first (s "cgi_read_sol")) eqn:E; [|exact I].
+  exists (fst face_ptset_result), (snd face_ptset_result).
+  revert E. vm_compute. intros E. first [ discriminate E | split; reflexivity ].
+Qed.
